@@ -146,7 +146,7 @@ def frame_segments(A, hier, fs, nfr):
     return out
 
 
-def brute_tmeasure(ref_seg, est_seg, nfr, transitive, window):
+def brute_tmeasure(ref_seg, est_seg, nfr, transitive, window, beta=1.0):
     """ref_seg[level][frame] -> segment index (concrete); LCA depth of (i,j) = deepest level (1-based) where both lie in one segment"""
     def lca(seg):
         M = [[0] * nfr for _ in range(nfr)]
@@ -177,11 +177,11 @@ def brute_tmeasure(ref_seg, est_seg, nfr, transitive, window):
     R, E = lca(ref_seg), lca(est_seg)
     rec = gauc(R, E)
     prec = gauc(E, R)
-    f = 0.0 if (prec == 0 and rec == 0) else 2 * prec * rec / (prec + rec)
+    f = 0.0 if (prec == 0 and rec == 0) else (1 + beta ** 2) * prec * rec / (beta ** 2 * prec + rec)
     return prec, rec, f
 
 
-def job_tmeasure(size, fs, maxT, window, transitive, counts=None):
+def job_tmeasure(size, fs, maxT, window, transitive, counts=None, beta=None):
     if counts is not None:
         b = T.b_hier_counts(counts[0], counts[1], fs, maxT, window='none' if window is None else window, transitive=transitive)
         size = counts
@@ -193,7 +193,10 @@ def job_tmeasure(size, fs, maxT, window, transitive, counts=None):
 
     def body(A, inp):
         rh, eh = inp['ref'][0], inp['est'][0]
-        res = HIER.tmeasure(rh, eh, **inp['kw'])
+        kw = dict(inp['kw'])
+        if beta is not None:
+            kw['beta'] = beta
+        res = HIER.tmeasure(rh, eh, **kw)
         for nm, v in zip(('P', 'R', 'F'), res):
             A.observe(nm, v)
             A.require(A.in01(v), 'tmeasure.%s-in-[0,1]' % nm)
@@ -220,15 +223,15 @@ def job_tmeasure(size, fs, maxT, window, transitive, counts=None):
                     m.append(found)
                 lv_maps.append(m)
             segs.append(lv_maps)
-        want = brute_tmeasure(segs[0], segs[1], nfr, transitive, wf)
+        want = brute_tmeasure(segs[0], segs[1], nfr, transitive, wf, beta if beta is not None else 1.0)
         for nm, v, w in zip(('P', 'R', 'F'), res, want):
             A.require(A.eq(v, w), 'tmeasure.%s==triplet-definition' % nm, want=w)
-    return Job('C17', 'tmeasure[%s,fs=%s,T<=%s,window=%s,transitive=%s]' % ('x'.join(map(str, size)) if counts is None else 'levels ref %s est %s (not nec. nested)' % counts, fs, maxT, window, transitive), build, body,
+    return Job('C17', 'tmeasure[%s,fs=%s,T<=%s,window=%s,transitive=%s%s]' % ('x'.join(map(str, size)) if counts is None else 'levels ref %s est %s (not nec. nested)' % counts, fs, maxT, window, transitive, '' if beta is None else ',beta=%s' % beta), build, body,
                funcs=['hierarchy.tmeasure', 'hierarchy._lca', 'hierarchy._gauc', 'hierarchy._compare_frame_rankings', 'hierarchy._round',
                       'hierarchy.validate_hier_intervals'], bounds=dict(size=size, frame_size=fs, max_span=maxT), exact_floats=False, timeout_s=3000)
 
 
-def brute_lmeasure(ref_seg, ref_lab, est_seg, est_lab, nfr):
+def brute_lmeasure(ref_seg, ref_lab, est_seg, est_lab, nfr, beta=1.0):
     def meet(seg, lab):
         M = [[0] * nfr for _ in range(nfr)]
         for lv, (s, l) in enumerate(zip(seg, lab), 1):
@@ -255,7 +258,7 @@ def brute_lmeasure(ref_seg, ref_lab, est_seg, est_lab, nfr):
                 cnt += 1
         return tot / cnt if cnt else 0.0
     rec, prec = gauc(R, E), gauc(E, R)
-    f = 0.0 if (prec == 0 and rec == 0) else 2 * prec * rec / (prec + rec)
+    f = 0.0 if (prec == 0 and rec == 0) else (1 + beta ** 2) * prec * rec / (beta ** 2 * prec + rec)
     return prec, rec, f
 
 
@@ -282,7 +285,7 @@ def n_frames(A, hier, fs):
     return nfr
 
 
-def job_lmeasure(size, fs, maxT, counts=None):
+def job_lmeasure(size, fs, maxT, counts=None, beta=None):
     if counts is not None:
         b = T.b_hier_counts(counts[0], counts[1], fs, maxT, labels='repeat')
         size = counts
@@ -295,16 +298,19 @@ def job_lmeasure(size, fs, maxT, counts=None):
     def body(A, inp):
         rh, rl = inp['ref']
         eh, el = inp['est']
-        res = HIER.lmeasure(rh, rl, eh, el, **inp['kw'])
+        kw = dict(inp['kw'])
+        if beta is not None:
+            kw['beta'] = beta
+        res = HIER.lmeasure(rh, rl, eh, el, **kw)
         for nm, v in zip(('P', 'R', 'F'), res):
             A.observe(nm, v)
             A.require(A.in01(v), 'lmeasure.%s-in-[0,1]' % nm)
         nfr = n_frames(A, rh, fs)
         segs = [frame_maps(A, hier, fs, nfr) for hier in (rh, eh)]
-        want = brute_lmeasure(segs[0], rl, segs[1], el, nfr)
+        want = brute_lmeasure(segs[0], rl, segs[1], el, nfr, beta if beta is not None else 1.0)
         for nm, v, w in zip(('P', 'R', 'F'), res, want):
             A.require(A.eq(v, w), 'lmeasure.%s==label-agreement-triplet-definition' % nm, want=w)
-    return Job('C17', 'lmeasure[%s,fs=%s,T<=%s]' % ('x'.join(map(str, size)) if counts is None else 'levels ref %s est %s (not nec. nested)' % counts, fs, maxT), build, body,
+    return Job('C17', 'lmeasure[%s,fs=%s,T<=%s%s]' % ('x'.join(map(str, size)) if counts is None else 'levels ref %s est %s (not nec. nested)' % counts, fs, maxT, '' if beta is None else ',beta=%s' % beta), build, body,
                funcs=['hierarchy.lmeasure', 'hierarchy._meet', 'hierarchy._gauc'], bounds=dict(size=size, frame_size=fs), exact_floats=False, timeout_s=3000)
 
 
@@ -346,5 +352,8 @@ def jobs(tier):
     # label-agreement depths that are not adjacent (two segments at the top level: frames that share only the deeper label)
     for counts in ([((2, 2), (1, 2))] if q else [((2, 2), (1, 2)), ((2, 2), (2, 2)), ((2, 3), (1, 2)), ((1, 2, 2), (1, 2))]):
         js.append(job_lmeasure(None, 0.5, 2.0, counts=counts))
+    # a non-default beta (F_beta weights recall beta times as much as precision)
+    js.append(job_tmeasure((2, 2), 0.5, 2.0, None, False, beta=2.0))
+    js.append(job_lmeasure((2, 2), 0.5, 2.0, beta=0.5))
     js.append(job_params())
     return js
